@@ -15,7 +15,7 @@ RULE = ("A generated history over any policy pair is executed twice: once with e
         "once with each argument rendered in a drawn container - decisions: list / ndarray / Series with a non-default "
         "index; rewards: list / int64, int32, int16, int8, bool, float64, float32 ndarray / Series (also of int8); contexts (training and query): list of lists / "
         "ndarray C-order, Fortran-order, strided view, transposed view, int64 / int32 / int8 / float64 / float32 dtype / DataFrame / Series (one "
-        "feature many rows, or one row many features). Outputs must be identical. Byte snapshots (pickle) of every "
+        "feature many rows, or one row many features). Outputs must be identical. Byte snapshots (pickle; for arrays bytes, dtype, shape, strides and the writeable / contiguity flags) of every "
         "caller object - data containers, the arms list, the policy tuples with their dict / list members, the "
         "arm-feature dictionary - taken before and after each call must be equal, and appending to the caller's arms "
         "list after construction must not affect the bandit. Non-trivial: at least one argument needed conversion "
